@@ -417,6 +417,7 @@ def run(tier: str, only=None) -> core.Result:
     ccfgs += [{"driver": "mcpclient", "steps": [dict(init, answer="error", code=c), a]} for a in clr for c in ERRORS]
     out = explorer.explore(RUN, ccfgs, fidelity=True)
     sched.absorb(res, "mcpclient-over-transports", RUN, out, ccfgs)
+    sched.debug_pass(res, "conversations", RUN, [c for c in cfgs if len(c["steps"]) == 1], every=1)
     res.coverage["carrier_runs"] = res.coverage["evaluations"] * len(CARRIERS)
     res.coverage["exhaustive"] = True
     res.coverage["rule"] = (
